@@ -506,3 +506,196 @@ func c06siblings(c *Ctx, r *Result) {
 	// the two numeric conversion routines (full read / partial read) agree on type tests (C09.2) - referenced, not repeated
 	r.Floor("C06.6", 1)
 }
+
+// ---- additional necessary conditions found by the third round of seeded changes ----
+
+func init() {
+	reg := registry["C06"]
+	reg.Meta.Rules["C06.7"] = "memoisation keys are complete: what is stored in a cache depends only on what the key is built from (an object cached by address must not carry the link name it was first reached by)"
+	reg.Meta.Rules["C06.8"] = "the full-read assembler copies every chunk the index lists: an iteration of its chunk loop ends in the copy or in an error, or skips a chunk that provably starts beyond the extent"
+	reg.Rules = append(reg.Rules, c06memoKeys, c06everyChunkCopied)
+}
+
+// paramsFlowingInto: parameters of fn whose value reaches v through conversions, arithmetic, phis, composite literals
+// (stores into the fresh object v points to) and calls (conservatively: every argument flows into the result).
+func paramsFlowingInto(fn *ssa.Function, v ssa.Value) map[*ssa.Parameter]bool {
+	out := map[*ssa.Parameter]bool{}
+	seen := map[ssa.Value]bool{}
+	var walk func(v ssa.Value, d int)
+	walk = func(v ssa.Value, d int) {
+		if v == nil || seen[v] || d > 14 {
+			return
+		}
+		seen[v] = true
+		switch x := v.(type) {
+		case *ssa.Parameter:
+			out[x] = true
+		case *ssa.Convert:
+			walk(x.X, d+1)
+		case *ssa.ChangeType:
+			walk(x.X, d+1)
+		case *ssa.ChangeInterface:
+			walk(x.X, d+1)
+		case *ssa.MakeInterface:
+			walk(x.X, d+1)
+		case *ssa.BinOp:
+			walk(x.X, d+1)
+			walk(x.Y, d+1)
+		case *ssa.UnOp:
+			walk(x.X, d+1)
+		case *ssa.Phi:
+			for _, e := range x.Edges {
+				walk(e, d+1)
+			}
+		case *ssa.Extract:
+			walk(x.Tuple, d+1)
+		case *ssa.Call:
+			for _, a := range x.Call.Args {
+				walk(a, d+1)
+			}
+			if !x.Call.IsInvoke() {
+				if _, isFn := x.Call.Value.(*ssa.Function); !isFn {
+					walk(x.Call.Value, d+1)
+				}
+			} else {
+				walk(x.Call.Value, d+1)
+			}
+		case *ssa.Alloc:
+			// fresh object: what is stored into its fields
+			for _, ref := range *x.Referrers() {
+				if fa, ok := ref.(*ssa.FieldAddr); ok {
+					for _, r2 := range *fa.Referrers() {
+						if st, ok := r2.(*ssa.Store); ok && st.Addr == ssa.Value(fa) {
+							walk(st.Val, d+1)
+						}
+					}
+				}
+				if st, ok := ref.(*ssa.Store); ok && st.Addr == ssa.Value(x) {
+					walk(st.Val, d+1)
+				}
+			}
+		case *ssa.FieldAddr:
+			walk(x.X, d+1)
+		case *ssa.Field:
+			walk(x.X, d+1)
+		case *ssa.TypeAssert:
+			walk(x.X, d+1)
+		}
+	}
+	walk(v, 0)
+	return out
+}
+
+func c06memoKeys(c *Ctx, r *Result) {
+	n := 0
+	for _, fn := range c.LibFuncs() {
+		if shortPkg(fnPkgPath(fn)) != "hdf5" {
+			continue
+		}
+		instrs(fn, func(in ssa.Instruction) {
+			mu, ok := in.(*ssa.MapUpdate)
+			if !ok {
+				return
+			}
+			k, _ := fieldLoadKey(mu.Map)
+			if k == "" {
+				return
+			}
+			n++
+			keyP := paramsFlowingInto(fn, mu.Key)
+			valP := paramsFlowingInto(fn, mu.Value)
+			var missing []string
+			for p := range valP {
+				if keyP[p] {
+					continue
+				}
+				// context parameters (the file/writer the cache lives in, readers, superblocks) are not part of the identity
+				t := typeShort(p.Type())
+				if p == fn.Params[0] && fn.Signature.Recv() != nil {
+					continue
+				}
+				if strings.HasPrefix(t, "*hdf5.File") || strings.Contains(t, "Superblock") || strings.Contains(t, "io.Reader") || strings.Contains(t, "context.") {
+					continue
+				}
+				missing = append(missing, p.Name())
+			}
+			sort.Strings(missing)
+			r.Check(len(missing) == 0, "C06.7", c.Name(fn)+"#"+k+"#key-covers-value", c.InstrPos(mu), "the value stored in "+k+" is built from parameter(s) "+strings.Join(missing, ", ")+" that the key does not contain: a later look-up with the same key but a different "+strings.Join(missing, "/")+" gets the first caller's object")
+		})
+	}
+	if n < 1 {
+		r.Errorf("C06.7: no map-valued cache or registry update found in package hdf5")
+	}
+	r.Floor("C06.7", 1)
+}
+
+func c06everyChunkCopied(c *Ctx, r *Result) {
+	fn := c.Fn(r, "core.readChunkedData")
+	if fn == nil {
+		return
+	}
+	var copyCall *ssa.Call
+	for _, site := range callsIn(fn) {
+		if c.calleeName(site) == "core.copyChunkToArray" {
+			copyCall, _ = site.(*ssa.Call)
+		}
+	}
+	if copyCall == nil {
+		r.Errorf("C06.8: readChunkedData no longer calls copyChunkToArray")
+		return
+	}
+	// the chunk loop: innermost loop header that dominates the copy
+	var hdr *ssa.BasicBlock
+	for _, b := range fn.Blocks {
+		isHeader := false
+		for _, p := range b.Preds {
+			if b.Dominates(p) {
+				isHeader = true // back edge p -> b
+			}
+		}
+		if isHeader && b.Dominates(copyCall.Block()) {
+			if hdr == nil || hdr.Dominates(b) {
+				hdr = b
+			}
+		}
+	}
+	if hdr == nil {
+		r.Errorf("C06.8: chunk loop not found")
+		return
+	}
+	env := &polyEnv{c: c, fn: fn}
+	bad := ""
+	n := 0
+	for _, b := range fn.Blocks {
+		if !hdr.Dominates(b) || b == hdr || !reachableFrom(b, nil)[hdr] {
+			continue
+		}
+		for _, s := range b.Succs {
+			if s != hdr {
+				continue
+			}
+			// a back edge b -> hdr: either the copy dominates b (normal end of the iteration) or this is a skip
+			if copyCall.Block().Dominates(b) {
+				n++
+				continue
+			}
+			n++
+			// skip: justified only by a dominating fact start >= dims, i.e. scaled*chunksize - dimensions >= 0
+			ok := false
+			for _, f := range env.factsAt(b) {
+				if f.Rel == ">=0" && (f.P.equal(P("chunksize*scaled", 1, "dims", -1)) || f.P.equal(P("chunksize*scaled", 1, "dimensions", -1))) {
+					ok = true
+				}
+			}
+			if !ok {
+				bad = c.InstrPos(b.Instrs[len(b.Instrs)-1])
+			}
+		}
+	}
+	if n == 0 {
+		r.Errorf("C06.8: no back edge of the chunk loop found")
+		return
+	}
+	r.Check(bad == "", "C06.8", c.Name(fn)+"#every-listed-chunk-copied", firstNonEmpty(bad, c.InstrPos(copyCall)), "every iteration of the chunk loop reaches copyChunkToArray (or returns an error); a chunk may only be skipped where scaled*chunkSize >= dims is established (a partial boundary chunk starts inside the extent and holds data)")
+	r.Floor("C06.8", 1)
+}
